@@ -422,7 +422,7 @@ func (propC04) Judge(sc *Scenario) *Verdict {
 			v.NotJudged = "faulty line accepted (whether it should be rejected is not decided here)"
 			v.stat("probe.fault-accepted:" + p.Fault.Kind)
 		} else if p.Fault.Expect == "injected" {
-			if r.Err != "injected" || (p.Fault.Callee != nil && r.Injected != p.Fault.Callee.ID) {
+			if r.Err != "injected" || (p.Fault.Callee != nil && !injectedIs(r, p.Fault.Callee.ID)) {
 				v.fail("c04:command-error-not-returned-unchanged", fmt.Sprintf("Execute/handler failed with injected error #%d; ParseArgs must return it unchanged, got %s/%s %q (argv=%q)", p.Fault.Callee.ID, r.Err, r.ErrType, clip(string(r.Msg), 200), argv))
 			}
 		} else if r.Err != "flags.Error" || !strings.Contains("|"+p.Fault.Expect+"|", "|"+r.ErrType+"|") {
